@@ -425,9 +425,13 @@ class P(object):
             self.next()
             fields = []
             while not self.at("}"):
+                if self.at(".."):
+                    raise Unsupported("struct update syntax")
                 f = self.next()[1]
-                self.expect(":")
-                fields.append((f, self.expr()))
+                if self.eat(":"):
+                    fields.append((f, self.expr()))
+                else:
+                    fields.append((f, ("path", [f])))      # shorthand `field,`
                 self.eat(",")
             self.expect("}")
             return ("struct", segs[-1], fields)
